@@ -6,6 +6,7 @@ writes the inputs as real TSM files (tombstones through TSMReader.DeleteRange), 
 every points-per-block setting (and Compactor.WriteSnapshot / NewCacheKeyIterator for cache contents), decodes every block of
 every output file with TSMReader and checks content = expected and the spec's WellFormed predicate: keys strictly sorted in a
 file, blocks of a key ordered and disjoint (across rolled files too), every block non-empty, sorted and <= the bound."""
+import json
 import os
 import sys
 sys.path.insert(0, os.path.dirname(os.path.abspath(__file__)))
@@ -28,9 +29,9 @@ def decorate(states, nts, seed, ntypes, nconc, base=0, rotate_modes=False, **ext
     return out
 
 
-def picks_run(ctx, name, picks, nts, nfiles, nkeys, ppbs='PPBSmall'):
+def picks_run(ctx, name, picks, nts, nfiles, nkeys):
     picks = T.dedupe(picks)
-    cfg = T.cfg_text('compact', nts, nfiles=nfiles, nkeys=nkeys, tombmode='none', picks='ThePicks', ppbs=ppbs, invariants=CINV)
+    cfg = T.cfg_text('compact', nts, nfiles=nfiles, nkeys=nkeys, tombmode='none', npicks=len(picks), invariants=CINV)
     r, states = T.run_family(ctx, cfg, spec=name, extra_files={name + '.tla': T.picks_module(name, picks)}, tag=name)
     if len(states) != len(picks):
         raise vlib.Inconclusive(f'{name}: {len(picks)} picks but {len(states)} valid cases')
@@ -38,13 +39,18 @@ def picks_run(ctx, name, picks, nts, nfiles, nkeys, ppbs='PPBSmall'):
 
 
 def roll_picks(n):
-    """Inputs whose merged key has to be re-encoded (overlapping files), so that ppb=1 yields more than 65535 blocks."""
+    """Inputs whose merged key has to be re-encoded (overlapping files), so that ppb=1 yields more than 65535 blocks once
+    every abstract point is stretched into 17000 concrete ones.  Two-key format, the second key is absent."""
     full = [0, 1, 2, 3]
+    no = {'blocks': [], 'tombs': []}
+
+    def f(blocks, tombs=()):
+        return [{'blocks': blocks, 'tombs': [list(t) for t in tombs]}, dict(no)]
     base = [
-        [[{'blocks': [full], 'tombs': []}], [{'blocks': [full], 'tombs': []}]],
-        [[{'blocks': [[0, 1], [2, 3]], 'tombs': []}], [{'blocks': [[1, 2, 3]], 'tombs': [[2, 2]]}], [{'blocks': [[0, 3]], 'tombs': []}]],
-        [[{'blocks': [full], 'tombs': [[1, 1]]}], [{'blocks': [[0, 1, 2]], 'tombs': []}]],
-        [[{'blocks': [[0, 2, 3]], 'tombs': []}], [{'blocks': [[1, 2], [3]], 'tombs': []}], [{'blocks': [full], 'tombs': [[0, 0]]}]],
+        [f([full]), f([full])],
+        [f([[0, 1], [2, 3]]), f([[1, 2, 3]], [(2, 2)]), f([[0, 3]])],
+        [f([full], [(1, 1)]), f([[0, 1, 2]])],
+        [f([[0, 2, 3]]), f([[1, 2], [3]]), f([full], [(0, 0)])],
     ]
     return base[:n]
 
@@ -53,36 +59,40 @@ def run(ctx):
     tier = ctx.tier
     cases = []
     cov = {}
-    r, st = T.run_family(ctx, f'TSMMerge.Compact_{tier}.cfg', tag='compact2', timeout=1500)
-    cov['exhaustive_2files_1key_4ts'] = len(st)
-    cases += decorate(st, 4, ctx.seed, 5, 1, rotate_modes=(tier == 'quick'))
-    r, st = T.run_family(ctx, f'TSMMerge.CompactKeys_{tier}.cfg', tag='compactkeys', timeout=1500)
+    quick = tier == 'quick'
+    r, st = T.run_family(ctx, f'TSMMerge.CompactA_{tier}.cfg', tag='compactA', timeout=3600)
+    cov['exhaustive_2files_1key_4ts_no_tombstone' if quick else 'exhaustive_2files_1key_4ts_le1tombstone'] = len(st)
+    cases += decorate(st, 4, ctx.seed, 5, 1)
+    r, st = T.run_family(ctx, f'TSMMerge.CompactB_{tier}.cfg', tag='compactB', timeout=3600)
+    cov['exhaustive_2files_1key_3ts_le1tombstone_per_file'] = len(st)
+    cases += decorate(st, 3, ctx.seed, 5, 1, base=10 ** 6, rotate_modes=quick)
+    r, st = T.run_family(ctx, f'TSMMerge.CompactKeys_{tier}.cfg', tag='compactkeys', timeout=3600)
     cov['exhaustive_2files_2keys_reduced_slots'] = len(st)
-    cases += decorate(st, 3, ctx.seed, 5, 1, base=10 ** 6)
-    r, st = T.run_family(ctx, f'TSMMerge.Snapshot_{tier}.cfg', tag='snapshot', timeout=1500)
+    cases += decorate(st, 3, ctx.seed, 5, 1, base=2 * 10 ** 6, rotate_modes=quick)
+    r, st = T.run_family(ctx, f'TSMMerge.Snapshot_{tier}.cfg', tag='snapshot', timeout=3600)
     cov['exhaustive_cache_write_sequences'] = len(st)
-    cases += decorate(st, 3, ctx.seed, 5, 1, base=2 * 10 ** 6)
-    n3 = 500 if tier == 'quick' else 6000
-    st = picks_run(ctx, 'MCCompact3', [T.rand_files(ctx.rng, 3, 2, 5) for _ in range(n3)], 5, 3, 2)
-    cov['sampled_3files_2keys_5ts'] = len(st)
-    cases += decorate(st, 5, ctx.seed, 5, 1 if tier == 'quick' else 2, base=3 * 10 ** 6)
-    if tier != 'quick':
-        st = picks_run(ctx, 'MCCompact4', [T.rand_files(ctx.rng, 4, 1, 4) for _ in range(3000)], 4, 4, 1)
-        cov['sampled_4files_1key_4ts'] = len(st)
-        cases += decorate(st, 4, ctx.seed, 5, 2, base=4 * 10 ** 6)
-    # file rolling: > 65535 blocks of one key force ErrMaxBlocksExceeded and a second output file
+    cases += decorate(st, 3, ctx.seed, 5, 1, base=3 * 10 ** 6)
+    n3 = 400 if tier == 'quick' else 6000
+    # file rolling: > 65535 blocks of one key force ErrMaxBlocksExceeded and a second output file (ppb = 1 only)
     rp = roll_picks(1 if tier == 'quick' else 4)
-    st = []
-    for i, p in enumerate(rp):
-        st += picks_run(ctx, f'MCRoll{i}', [p], 4, len(p), 1, ppbs='PPBOne')
-    cov['file_rolling_scenarios'] = len(st)
-    roll = decorate(st, 4, ctx.seed, 1, 1, base=5 * 10 ** 6, stretch=17000)
+    rkeys = {json.dumps(p, sort_keys=True) for p in rp}
+    st = picks_run(ctx, 'MCCompact3', [T.rand_files(ctx.rng, 3, 2, 5) for _ in range(n3)] + rp, 5, 3, 2)
+    rolls = [x for x in st if json.dumps(x['c']['files'], sort_keys=True) in rkeys]
+    st = [x for x in st if json.dumps(x['c']['files'], sort_keys=True) not in rkeys]
+    cov['sampled_3files_2keys_5ts'] = len(st)
+    cases += decorate(st, 5, ctx.seed, 5, 1 if tier == 'quick' else 2, base=4 * 10 ** 6)
+    cov['file_rolling_scenarios'] = len(rolls)
+    roll = decorate(rolls, 5, ctx.seed, 1, 1, base=6 * 10 ** 6, stretch=17000, only_ppb=1)
     for c in roll:
         c['modes'] = ['full'] if tier == 'quick' else MODES
         c['conc'] = ['small']
     cases += roll
+    if tier != 'quick':
+        st = picks_run(ctx, 'MCCompact4', [T.rand_files(ctx.rng, 4, 1, 4) for _ in range(3000)], 4, 4, 1)
+        cov['sampled_4files_1key_4ts'] = len(st)
+        cases += decorate(st, 4, ctx.seed, 5, 2, base=5 * 10 ** 6)
     binary = ctx.go_build('tsmmerge')
-    res, lines = ctx.replay(binary, cases, args={'shm': 1}, timeout=1700, case_timeout='300s')
+    res, lines = ctx.replay(binary, cases, args={'shm': 1}, timeout=7200, case_timeout='1800s')
     ctx.absorb(res, lines)
     rolled = [r for r, c in zip(res, cases) if c.get('stretch') and r.get('ok') and r.get('nontrivial')]
     if len(rolled) == 0 and all(r.get('ok') for r, c in zip(res, cases) if c.get('stretch')):
@@ -94,8 +104,8 @@ def run(ctx):
     ctx.rule = ('case = one TLC state: input files (oldest first; per key <= 2 ordered disjoint blocks, tombstone ranges per file '
                 'and key) or a sequence of cache writes, with the expected content per key and the block-size bound per '
                 'points-per-block setting. Exhaustive parts enumerate every input of the stated shape, sampled parts are drawn '
-                'with VERIF_SEED and passed to the spec as Picks. Each file case runs CompactFast and CompactFull for every ppb in '
-                '{1,2,3,1000} (in the quick tier the cases of the largest exhaustive part alternate between fast and full); each cache case runs WriteSnapshot and NewCacheKeyIterator for every ppb (every input holds one '
+                'with VERIF_SEED and passed to the spec as explicit inputs (NPicks / PickAt). Each file case runs CompactFast and CompactFull for every ppb in '
+                '{1,2,3,1000} (in the quick tier the cases of the two larger exhaustive parts alternate between fast and full); each cache case runs WriteSnapshot and NewCacheKeyIterator for every ppb (every input holds one '
                 'series per value type, booleans one per bit of the file index; the timestamp concretisation rotates over the cases). '
                 'non-trivial = blocks of the same key in two input files overlap in time, or a tombstone removes a proper part of '
                 'a block (files); a timestamp of a key written twice (cache); more than one output file (rolling); distinct by input.')
@@ -112,8 +122,8 @@ def run(ctx):
 
 META = {
     'level': 'model_checking',
-    'text': 'TLC enumerates every two-file input over 4 timestamps (one key) and every two-file two-key input over reduced slot '
-            'layouts, every short cache write sequence, plus seeded three/four-file inputs; expected content is LWW(inputs) from '
+    'text': 'TLC enumerates every two-file one-key input over 4 timestamps (quick: without tombstones) and over 3 timestamps with a '
+            'tombstone range per file, every two-file two-key input over reduced slot layouts, every short cache write sequence, plus seeded three/four-file inputs; expected content is LWW(inputs) from '
             'the set-algebra contract (invariants: LWW = fold of Merge, the contract is satisfiable by chunking). Every state is '
             'replayed through the real Compactor (fast, full, snapshot) for each points-per-block setting and the decoded output '
             'is compared with the expectation and the well-formedness predicate.',
